@@ -76,7 +76,7 @@ if [ "$(cat "$OUT/.libkey" 2>/dev/null || true)" != "$KEY" ]; then
 fi
 
 # --- harness + engines ---------------------------------------------------------------------------
-ENGINES="vrun enum_c13 enum_c15 enum_c12 enum_c17 seqmc cutmc statemc faultmc pump ilv"
+ENGINES="vrun enum_c13 enum_c15 enum_c12 enum_c17 mpartmc cutmc statemc faultmc pump ilv enum_c11 decompmc"
 HXSRC=$(ls "$HERE"/*.c "$HERE"/*.h)
 HKEY=$( (echo "$KEY $CC $CFL"; cat $HXSRC) | sha1sum | cut -c1-16)
 WRAP="-Wl,--wrap=malloc,--wrap=calloc,--wrap=realloc,--wrap=free,--wrap=strdup,--wrap=gettimeofday,--wrap=inflateInit2_"
